@@ -44,6 +44,7 @@ PROPS = {
                         "closed forms for last_child / next_sibling / prev_sibling (node-only) and for first_token/last_token/next_token/prev_token (tokens_spec)"],
     ),
     "C04": dict(
+        tags=["C04", "C01"],   # the history runs also evaluate the structural oracle: "equal in structure, kinds and text" is part of C04
         runs=runs([("history", "release")],
                   [("history", "release"), ("history", "lasso"), ("build", "release")]),
         rule="cases = histories of 2-8 (thorough 2-21) trees built through one long-lived cache and interner, with sub-trees re-used across "
@@ -74,18 +75,41 @@ PROPS = {
     ),
     "C06": dict(
         extra_modules=["CstModel.Proofs.Conc"],
-        runs=runs([("conc:lifecycle", "release"), ("conc:traverse", "release")],
-                  [("conc:lifecycle", "release"), ("conc:lifecycle", "debug"), ("conc:traverse", "release"), ("conc:data", "release")]),
+        runs=runs([("conc:lifecycle", "release"), ("conc:traverse", "release"), ("miri:all", "miri")],
+                  [("conc:lifecycle", "release"), ("conc:lifecycle", "debug"), ("conc:traverse", "release"), ("conc:data", "release"), ("miri:all", "miri")]),
         rule="cases = executions under the deterministic scheduler of 8 fixed + 10 (thorough 60) random clone/drop/traverse/send programs over 1-3 threads (handles "
              "to inner nodes and tokens outliving the root handle, the last drop on any thread incl. the main thread first or last, creation races whose loser "
              "is discarded); all schedules with <= 1 (thorough 2) preemptions + random schedules; instrumentation oracle per execution: every NodeData block and "
              "the count cell are freed exactly once, never accessed after being freed, nothing stays live after the last handle is gone, and nothing is freed "
              "before; the event trace with the counter value after every RMW and the number of blocks freed by the teardown is replayed through the Lean model, "
-             "which must accept every event (a teardown event is only enabled when no handle is owned or owed); non-trivial = the scheduler had a real choice",
+             "which must accept every event (a teardown event is only enabled when no handle is owned or owed); + the 7 free-running Miri programs of C07 on the un-hooked "
+             "crate (use-after-free, double free, leaks and races with the teardown under the language memory model; 4 (thorough 32) schedules each); "
+             "non-trivial = the scheduler had a real choice",
         assumptions=["the green tree, resolver and per-node data are owned by red blocks (plain Rust ownership): their release is implied by the block being dropped exactly once",
                      "counter arithmetic is modelled on Int without wrap-around; the u32 counter wrapping at 2^32 clones is outside the property's histories"],
         not_yet_proved=["blocks_freed_once as a theorem about the recursive teardown (the model's teardown is one atomic step that frees all installed blocks; the per-block "
                         "exactly-once is checked by the instrumentation oracle)"],
+    ),
+    "C07": dict(
+        extra_modules=["CstModel.Proofs.MemModel"],
+        tags=["C07"],
+        runs=runs([("conc:lifecycle", "release"), ("miri:all", "miri")],
+                  [("conc:lifecycle", "release"), ("conc:traverse", "release"), ("conc:data", "release"), ("miri:all", "miri")]),
+        rule="(a) cases = the scheduler executions of the lifecycle (thorough: + traverse, data) suites (see C06): their event streams -- every counter RMW with its site and "
+             "resulting value, every hand-over of a handle, every dereference of a red node (`acc`) -- are replayed through the Lean happens-before model "
+             "`Mem.step` with the extracted orderings: the model's counter must equal the implementation's after every RMW, every dereference must come from a "
+             "thread the model says holds a handle (the model's only assumption about who touches the tree), the teardown must coincide and be race free in the "
+             "model; lock-set discipline of every slot access is checked on the same executions. (b) 7 free-running programs (safe API only: concurrent clone/drop, "
+             "last drop on an un-joined thread, creation races, inner-node / token handles outliving the root, data slots, resolved trees, shared green trees) over "
+             "the UN-HOOKED crate under Miri's happens-before race detector with weak-memory emulation, 4 (thorough 32) schedules each; non-trivial = the "
+             "scheduler had a real choice / every Miri run; distinct = distinct trace",
+        assumptions=["the model covers the release/acquire fragment: RMWs on one counter, hand-over of handles through synchronising operations of safe Rust; locks "
+                     "(parking_lot) and Arc (triomphe, std) are assumed data-race free themselves",
+                     "accesses by handle holders are assumed not to conflict with each other (they are reads of immutable parts or go through the slot / data locks): "
+                     "that half is checked dynamically (lock-set discipline under the scheduler, Miri), not proved -- see not_yet_proved",
+                     "Miri explores a handful of schedules per program; it is the search for a failing execution, the theorem is what covers all interleavings"],
+        not_yet_proved=["slot_accesses_race_free: vector-clock treatment of the per-slot locks and of references handed out of a slot (install happens-before every use); "
+                        "currently: lock-set check on every explored execution + Miri"],
     ),
     "C08": dict(
         runs=runs([("probe:c08", "rustc")], [("probe:c08", "rustc")]),
